@@ -476,6 +476,58 @@ fn proof_edits(r: &Resp, pi: usize, cx: &QCtx, out: &mut Vec<Alt>) {
     }
 }
 
+/// "<start>-<end>" read back as a block range key (what `BlockRange -> MKTreeNode` can have written)
+fn parse_key_text(t: &str) -> Option<(u64, u64)> {
+    let (a, b) = t.split_once('-')?;
+    Some((canon_u64(a)?, canon_u64(b)?))
+}
+
+/// A sub-proof over a block range that holds a single leaf: the map entry is H(key text ‖ sub-root)
+/// and the sub-root IS the raw leaf, so 1..3 characters are moved between the end of the key text
+/// "<start>-<end>" and the front of the leaf (both directions), the key being re-read from the
+/// shortened / lengthened text and the item re-written to match its new leaf.
+fn map_key_single_leaf_shifts(r: &Resp, pi: usize, out: &mut Vec<Alt>) {
+    const CLASS: &str = "chars-moved-between-map-key-and-single-leaf";
+    let part = &r.parts[pi];
+    for (si, (key, sp)) in part.proof.sub_proofs.iter().enumerate() {
+        let m = &sp.master_proof;
+        if !(sp.sub_proofs.is_empty() && m.inner_leaves.len() == 1 && m.inner_proof_items.is_empty()) {
+            continue;
+        }
+        let leaf = m.inner_leaves[0].1.hash.clone();
+        let Some(ii) = part.items.iter().position(|it| it.leaf() == leaf) else { continue };
+        let text = format!("{}-{}", key.inner_range.start, key.inner_range.end);
+        for k in 1..=3usize {
+            let mut cands: Vec<(String, String, Vec<u8>)> = vec![];
+            if text.len() > k {
+                let (keep, moved) = text.split_at(text.len() - k);
+                let mut nl = moved.as_bytes().to_vec();
+                nl.extend_from_slice(&leaf);
+                cands.push((format!("last {k} char(s) of the key text {text:?} moved to the front of the leaf"), keep.to_string(), nl));
+            }
+            if leaf.len() > k
+                && let Ok(head) = std::str::from_utf8(&leaf[..k])
+            {
+                cands.push((format!("first {k} char(s) of the leaf appended to the key text {text:?}"), format!("{text}{head}"), leaf[k..].to_vec()));
+            }
+            for (label, new_text, new_leaf) in cands {
+                let Some((s, e)) = parse_key_text(&new_text) else { continue };
+                let Some(new_item) = item_from_leaf(&part.items[ii], &new_leaf) else { continue };
+                if new_item.leaf() != new_leaf {
+                    continue;
+                }
+                let mut n = r.clone();
+                n.parts[pi].items[ii] = new_item;
+                let e_ = &mut n.parts[pi].proof.sub_proofs[si];
+                e_.0 = PRange { inner_range: s..e };
+                e_.1.master_proof.inner_leaves[0].1 = PNode { hash: new_leaf.clone() };
+                e_.1.master_proof.inner_root = PNode { hash: new_leaf };
+                push(out, CLASS, format!("part {pi} sub-proof {si}: {label}, key re-read as {s}-{e}"), n);
+            }
+        }
+    }
+}
+
 /// A block range key stated twice: a sub-proof made by the aggregator over its own tree (forged
 /// leaves, possibly next to genuine ones) is listed before / after the genuine sub-proof of the same
 /// key, the forged items being appended to, or put in place of, the reported items of that range.
@@ -595,6 +647,7 @@ pub fn alterations(r: &Resp, cx: &QCtx) -> Vec<Alt> {
         }
         proof_edits(r, pi, cx, &mut out);
         self_made_sub_proofs(r, pi, cx, &mut out);
+        map_key_single_leaf_shifts(r, pi, &mut out);
     }
     leaf_neighbour_shifts(r, &mut out);
     // ---- several set proofs (legacy format)
